@@ -811,16 +811,16 @@ Section NestedProof.
     LOK e = true -> EN e = if HU e then OVal VUnres else OVal (VJ (SUB e)).
 
   Lemma nested_arr_go (l : list json) : Forall nested_spec l -> forall acc, forallb LOK l = true ->
-    (fix go (l : list json) (acc : list json) : outcome :=
+    (fix go (l : list json) (acc : list json) (opq : bool) : outcome :=
        match l with
-       | [] => OVal (VJ (JArr (rev acc)))
+       | [] => if opq then OVal VOpaque else OVal (VJ (JArr (rev acc)))
        | x :: r => match EN x with
-                   | OVal (VJ j) => go r (j :: acc)
+                   | OVal (VJ j) => go r (j :: acc) opq
                    | OVal VUnres => OVal VUnres
-                   | OVal _ => OVal VOpaque
+                   | OVal _ => go r acc true
                    | other => other
                    end
-       end) l acc
+       end) l acc false
     = if existsb HU l then OVal VUnres else OVal (VJ (JArr (rev acc ++ map SUB l))).
   Proof.
     intros HF. induction HF as [|x l Hx _ IH]; intros acc Hok.
@@ -833,23 +833,25 @@ Section NestedProof.
 
   Lemma nested_obj_go (l : list (str * json)) : Forall (fun kv => nested_spec (snd kv)) l -> forall acc,
     forallb (fun kv => key_ok rx_ok rx_extract cx (fst kv) && LOK (snd kv)) l = true ->
-    (fix go (l : list (str * json)) (acc : list (str * json)) : outcome :=
+    (fix go (l : list (str * json)) (acc : list (str * json)) (opq : bool) : outcome :=
        match l with
-       | [] => OVal (VJ (JObj acc))
+       | [] => if opq then OVal VOpaque else OVal (VJ (JObj acc))
        | (k, x) :: r =>
            match key_of (eval_str rx_ok rx_extract cx k) with
-           | OVal (VJ (JStr k')) =>
+           | OVal VUnres => OVal VUnres
+           | OVal kv =>
                match EN x with
-               | OVal (VJ j) => go r (assoc_set k' j acc)
+               | OVal (VJ j) => match kv with
+                                | VJ (JStr k') => go r (assoc_set k' j acc) opq
+                                | _ => go r acc true
+                                end
                | OVal VUnres => OVal VUnres
-               | OVal _ => OVal VOpaque
+               | OVal _ => go r acc true
                | other => other
                end
-           | OVal VUnres => OVal VUnres
-           | OVal _ => OVal VOpaque
            | other => other
            end
-       end) l acc
+       end) l acc false
     = if existsb (fun kv => is_unres_o (evk rx_ok rx_extract cx (fst kv)) || HU (snd kv)) l then OVal VUnres
       else OVal (VJ (JObj (fold_left (fun acc kv => assoc_set (leaf_key rx_ok rx_extract cx (fst kv)) (SUB (snd kv)) acc) l acc))).
   Proof.
